@@ -201,6 +201,10 @@ struct Prog {
     accounts: Vec<Value>,
     sc_call: Option<u8>,
     sc_create: bool,
+    /// answer the creates whose init code is exactly this
+    sc_init: Option<Vec<u8>>,
+    /// answer the call / create announced while exactly this many frames are open
+    sc_depth: Option<u64>,
 }
 impl Prog {
     fn new(cls: &str, fork: &str, accounts: Vec<Value>) -> Prog {
@@ -214,6 +218,8 @@ impl Prog {
             accounts,
             sc_call: None,
             sc_create: false,
+            sc_init: None,
+            sc_depth: None,
         }
     }
     fn val(mut self, v: u64) -> Self {
@@ -231,7 +237,8 @@ impl Prog {
         }
         json!({"id": id, "cls": self.cls, "fork": self.fork, "gas_limit": self.gas_limit, "value": self.value,
                "data": hex(&self.data), "to": self.to.map(|t| hex(&[t])), "accounts": accounts,
-               "sc_call": self.sc_call.map(|t| hex(&[t])), "sc_create": self.sc_create})
+               "sc_call": self.sc_call.map(|t| hex(&[t])), "sc_create": self.sc_create,
+               "sc_init": self.sc_init.as_ref().map(|b| hex(b)), "sc_depth": self.sc_depth})
     }
 }
 
@@ -361,6 +368,87 @@ fn early_scenarios(f: &str) -> Vec<Prog> {
     v
 }
 
+/// One hop of a nesting chain: the frame performs it, drops the result and stops.
+#[derive(Clone, Copy, PartialEq)]
+enum Hop {
+    Create,
+    Create2,
+    Call(u8),
+}
+
+/// Code of a frame that performs hops[0]; the frame reached by hops[0] performs hops[1] and so on.  The last
+/// hop is the one the inspector answers (its target never runs: init code INVALID / callee STOP).
+fn chain_code(hops: &[Hop], accts: &mut Vec<Value>, tail: u8) -> Vec<u8> {
+    let inner = if hops.len() > 1 { chain_code(&hops[1..], accts, tail) } else { vec![] };
+    let a = match hops[0] {
+        Hop::Create | Hop::Create2 => {
+            let init = if hops.len() > 1 { inner } else { vec![INVALID] };
+            Asm::new().create(0, &init, if hops[0] == Hop::Create2 { Some(5) } else { None })
+        }
+        Hop::Call(t) => {
+            accts.push(acct(t, 1, 1, &if hops.len() > 1 { inner } else { vec![STOP] }));
+            Asm::new().call(CALL, G::All, t, 0, 0, 0)
+        }
+    };
+    let a = a.op(POP);
+    match tail {
+        0 => a.op(STOP).done(),
+        1 => a.push(0).push(0).op(LOG0).op(STOP).done(),
+        _ => a.push(0).push(0).op(RETURN).done(),
+    }
+}
+
+/// Inspector-answered creates / calls NESTED inside create frames and call frames (C29): the answered start
+/// is selected by its init code / callee (`by_depth` = false) or by the number of open frames.
+fn nested_answered_scenarios(f: &str) -> Vec<Prog> {
+    use Hop::*;
+    let patterns: Vec<(&str, Vec<Hop>)> = vec![
+        ("c", vec![Create]),
+        ("cc", vec![Create, Create]),
+        ("ccc", vec![Create, Create, Create]),
+        ("c2c2", vec![Create2, Create2]),
+        ("cc2c", vec![Create, Create2, Create]),
+        ("cBc", vec![Create, Call(B), Create]),
+        ("Bcc", vec![Call(B), Create, Create]),
+        ("cBCc", vec![Create, Call(B), Call(C), Create]),
+        ("cccc", vec![Create, Create, Create, Create]),
+        ("B", vec![Call(B)]),
+        ("BC", vec![Call(B), Call(C)]),
+        ("cB", vec![Create, Call(B)]),
+        ("ccB", vec![Create, Create, Call(B)]),
+        ("BcC", vec![Call(B), Create, Call(C)]),
+        ("cBcC", vec![Create, Call(B), Create2, Call(C)]),
+    ];
+    let mut v = vec![];
+    for (i, (name, hops)) in patterns.iter().enumerate() {
+        for create_tx in [true, false] {
+            for by_depth in [false, true] {
+                let mut accts = vec![];
+                let code = chain_code(hops, &mut accts, (i % 3) as u8);
+                let mut p = Prog::new(&format!("nest:{}{}:{}", if create_tx { "T" } else { "A" }, name,
+                                               if by_depth { "depth" } else { "id" }), f, vec![]).gas(600_000);
+                if create_tx {
+                    p.to = None;
+                    p.data = code;
+                } else {
+                    accts.push(acct(A, 5, 1, &code));
+                }
+                p.accounts = accts;
+                if by_depth {
+                    p.sc_depth = Some(hops.len() as u64);
+                } else {
+                    match hops[hops.len() - 1] {
+                        Call(t) => p.sc_call = Some(t),
+                        _ => p.sc_init = Some(vec![INVALID]),
+                    }
+                }
+                v.push(p);
+            }
+        }
+    }
+    v
+}
+
 /// Recursion until the depth limit (HOMESTEAD: the whole requested gas is forwarded).
 fn deep_program() -> Prog {
     let code = Asm::new().push(0).op(DUP1).op(DUP1).op(DUP1).op(DUP1).op(ADDRESS)
@@ -373,8 +461,10 @@ fn pick<T: Copy>(r: &mut StdRng, xs: &[T]) -> T {
 }
 
 fn init_templates(r: &mut StdRng) -> Vec<u8> {
-    match r.gen_range(0..9) {
+    match r.gen_range(0..11) {
         0 => vec![],
+        9 => Asm::new().create(0, &[INVALID], None).op(POP).raw(&deployer(&[STOP])).done(),
+        10 => Asm::new().create(0, &Asm::new().create(0, &[STOP], Some(1)).op(POP).op(STOP).done(), None).op(POP).op(STOP).done(),
         1 => deployer(&[ADDRESS, SELFDESTRUCT]),
         2 => deployer(&sd_to(pick(r, &[A, B, C, ABSENT]))),
         3 => sd_to(pick(r, &[A, B, ABSENT, P4])),
@@ -561,6 +651,9 @@ fn generate(n: usize, seed: u64, tier: &str) -> Vec<Value> {
             ps.push(p);
         }
     }
+    for f in if tier == "quick" { vec!["LONDON", "PRAGUE"] } else { vec!["HOMESTEAD", "BERLIN", "LONDON", "SHANGHAI", "CANCUN", "PRAGUE"] } {
+        ps.extend(nested_answered_scenarios(f));
+    }
     let fixed = ps.len();
     let rest = n.saturating_sub(fixed);
     for i in 0..rest {
@@ -572,6 +665,11 @@ fn generate(n: usize, seed: u64, tier: &str) -> Vec<Value> {
                 p.cls = "sc:graph".into();
                 p.sc_call = Some(pick(&mut r, &[B, C, P4, ABSENT]));
                 p.sc_create = r.gen_bool(0.3);
+                match r.gen_range(0..6) {
+                    0 => p.sc_init = Some(vec![INVALID]),
+                    1 => p.sc_depth = Some(r.gen_range(1..4)),
+                    _ => {}
+                }
                 p
             }
             5..=7 => ops_program(&mut r, f),
@@ -618,6 +716,8 @@ struct Recorder {
     d: Dict,
     sc_call: Option<Address>,
     sc_create: bool,
+    sc_init: Option<Vec<u8>>,
+    sc_depth: Option<usize>,
     open: usize,
 }
 
@@ -695,7 +795,8 @@ impl<DB: Database> Inspector<DB> for Recorder {
         self.ev.push(json!({"e": "Log", "addr": a, "nt": log.data.topics().len()}));
     }
     fn call(&mut self, _c: &mut EvmContext<DB>, inputs: &mut CallInputs) -> Option<CallOutcome> {
-        let answered = self.sc_call.is_some_and(|t| t == inputs.bytecode_address) && self.open > 0;
+        let answered = self.open > 0
+            && (self.sc_call.is_some_and(|t| t == inputs.bytecode_address) || self.sc_depth == Some(self.open));
         let v = self.call_inputs(inputs);
         self.push("Call", v, json!({"sc": answered}));
         self.open += 1;
@@ -717,7 +818,10 @@ impl<DB: Database> Inspector<DB> for Recorder {
         outcome
     }
     fn create(&mut self, _c: &mut EvmContext<DB>, inputs: &mut CreateInputs) -> Option<CreateOutcome> {
-        let answered = self.sc_create && self.open > 0;
+        let answered = self.open > 0
+            && (self.sc_create
+                || self.sc_depth == Some(self.open)
+                || self.sc_init.as_ref().is_some_and(|c| c[..] == inputs.init_code[..]));
         let v = self.create_inputs(inputs);
         self.push("Create", v, json!({"sc": answered}));
         self.open += 1;
@@ -852,8 +956,10 @@ fn run_program(p: &Value, maxev: usize, out: &mut Out, verbose: bool) -> (usize,
     let pid = p["id"].as_u64().unwrap_or(0);
     let sc_call = p["sc_call"].as_str().map(addr_of);
     let sc_create = p["sc_create"].as_bool().unwrap_or(false);
-    let observing = sc_call.is_none() && !sc_create;
-    let mut rec = Recorder { sc_call, sc_create, ..Default::default() };
+    let sc_init = p["sc_init"].as_str().map(unhex);
+    let sc_depth = p["sc_depth"].as_u64().map(|d| d as usize);
+    let observing = sc_call.is_none() && !sc_create && sc_init.is_none() && sc_depth.is_none();
+    let mut rec = Recorder { sc_call, sc_create, sc_init, sc_depth, ..Default::default() };
     // fixed ids for the well-known addresses (readability of traces only)
     for a in [EOA, A, B, C, P4, ABSENT] {
         rec.d.a(addr(a));
